@@ -649,6 +649,37 @@ func (m *Machine) lookup(instr *ssa.Lookup, x Value, key Value) Value {
 					}
 				}
 			}
+			if kt, isT := key.(*Term); allTerm && isT && kt.w <= 8 && kt.w > 0 {
+				// byte-keyed map with constant entries: one table lookup
+				allConst := true
+				for i := range x.keys {
+					if x.live[i] && !x.vals[i].(*Term).IsConst() {
+						allConst = false
+					}
+				}
+				if allConst {
+					zw := m.zero(vt).(*Term).w
+					vals := make([]uint64, 1<<kt.w)
+					fvals := make([]uint64, 1<<kt.w)
+					for i := range x.keys {
+						if x.live[i] {
+							k := x.keys[i].(*Term).c
+							vals[k] = x.vals[i].(*Term).c
+							fvals[k] = 1
+						}
+					}
+					var r *Term
+					if zw == 0 {
+						r = m.f.Cmp(OEq, m.f.Tbl(m.f.NewTable(1, vals), kt), m.f.Const(1, 1))
+					} else {
+						r = m.f.Tbl(m.f.NewTable(zw, vals), kt)
+					}
+					if instr.CommaOk {
+						return Tuple{r, m.f.Cmp(OEq, m.f.Tbl(m.f.NewTable(1, fvals), kt), m.f.Const(1, 1))}
+					}
+					return r
+				}
+			}
 			if allTerm {
 				r := m.zero(vt).(*Term)
 				found := m.f.fls
